@@ -28,7 +28,7 @@ GBound == ReqInvCanon(s) /\ Len(hist) <= (IF SimDepth > 0 THEN SimDepth ELSE Gen
 
 Alpha == SetToSeq(Accounts \X Contents)       \* fixed enumeration of (author, content)
 
-Post(x) == [ent |-> x.ent, perm |-> x.perm, status |-> x.status, req |-> x.req,
+Post(x) == [ent |-> x.ent, perm |-> x.perm, status |-> x.status, req |-> x.req, rgen |-> x.rgen,
             inv |-> x.inv, opts |-> x.opts, ng |-> Len(x.cf)]
 
 Whys(x) == [k \in 1..Len(Alpha) |-> Run(x, Alpha[k][1], <<Alpha[k][2]>>).why]
